@@ -179,10 +179,6 @@ Qed.
 Section Apply.
   Context {B : Type} (zero : B).
 
-  (* the triples read off a masked dataset: grid of the mask, slim data, slim noise *)
-  Definition triples_of (g : rgeom) (d n : arr2d B) : list ((R * R) * (B * B)) :=
-    combine (@grid_slim_via_mask ROps (snd d) g) (combine (slim_of zero (fst d) (snd d)) (slim_of zero (fst n) (snd n))).
-
   Lemma to_nat_lt (y : nat) (R : Z) : (y < Z.to_nat R)%nat -> 0 <= Z.of_nat y < R.
   Proof. lia. Qed.
 
@@ -190,7 +186,7 @@ Section Apply.
   Lemma triples_unpadded (data noise : list (list B)) (m : list (list bool)) H W sy sx oy ox d n :
     rectb H W data = true -> rectb H W noise = true -> rectb H W m = true -> 0 < H -> sy <> 0%R -> sx <> 0%R ->
     mask_apply zero data m = Ok d -> mask_apply zero noise m = Ok n ->
-    triples_of (sy, sx, oy, ox) (d, m) (n, m) = @triples_spec ROps B zero data noise m (sy, sx, oy, ox).
+    @triples_of ROps B zero (sy, sx, oy, ox) (d, m) (n, m) = @triples_spec ROps B zero data noise m (sy, sx, oy, ox).
   Proof.
     intros HD HN HM HP Hsy Hsx ED EN.
     pose proof (Entries_self zero _ _ _ HD HP) as XD. pose proof (Entries_self zero _ _ _ HN HP) as XN.
@@ -214,7 +210,7 @@ Section Apply.
     padded_before_convolution_from zero (d, m) (k0, k1) 1 = Ok d' ->
     padded_before_convolution_from zero (n, m) (k0, k1) 1 = Ok n' ->
     snd n' = snd d' /\ snd d' = resize_spec true m (H + (k0 - 1)) (W + (k1 - 1)) /\
-    triples_of (sy, sx, oy, ox) d' n' = @triples_spec ROps B zero data noise m (sy, sx, oy, ox).
+    @triples_of ROps B zero (sy, sx, oy, ox) d' n' = @triples_spec ROps B zero data noise m (sy, sx, oy, ox).
   Proof.
     intros HD HN HM HP Hsy Hsx O0 O1 Hk0 Hk1 ED EN EPD EPN.
     pose proof (rectb_W_nonneg _ _ _ HM HP) as HW.
@@ -269,7 +265,7 @@ Section Apply.
     rectb H W data = true -> rectb H W noise = true -> rectb H W m = true -> 0 < H -> sy <> 0%R -> sx <> 0%R ->
     match psf with Some k => odd_kernel k = true | None => True end ->
     exists d' n', imaging_apply_mask zero data noise m psf = Ok (d', n') /\ snd n' = snd d' /\
-      triples_of (sy, sx, oy, ox) d' n' = @triples_spec ROps B zero data noise m (sy, sx, oy, ox) /\
+      @triples_of ROps B zero (sy, sx, oy, ox) d' n' = @triples_spec ROps B zero data noise m (sy, sx, oy, ox) /\
       (snd d' = m \/ exists k, psf = Some k /\ blurring_raises m k = true /\
                                snd d' = resize_spec true m (H + (fst k - 1)) (W + (snd k - 1))).
   Proof.
@@ -280,7 +276,7 @@ Section Apply.
     destruct (mask_apply_entries zero noise m H W _ _ XN XM) as (n & EN & YN).
     unfold imaging_apply_mask. rewrite ED, EN. cbn [bind].
     assert (PLAIN : exists d' n', Ok ((d, m), (n, m)) = Ok (d', n') /\ snd n' = snd d' /\
-      triples_of (sy, sx, oy, ox) d' n' = @triples_spec ROps B zero data noise m (sy, sx, oy, ox) /\
+      @triples_of ROps B zero (sy, sx, oy, ox) d' n' = @triples_spec ROps B zero data noise m (sy, sx, oy, ox) /\
       (snd d' = m \/ exists k, psf = Some k /\ blurring_raises m k = true /\
                                snd d' = resize_spec true m (H + (fst k - 1)) (W + (snd k - 1)))).
     { exists (d, m), (n, m). split; [reflexivity|]. split; [reflexivity|]. split; [|left; reflexivity].
@@ -295,3 +291,30 @@ Section Apply.
     split; [exact T1|]. split; [exact T3|]. right. exists (k0, k1). cbn [fst snd]. repeat split; assumption.
   Qed.
 End Apply.
+
+(* MAIN 5 (pixel form): a parity-preserving Array2D.resized_from keeps, for every surviving pixel, its mask entry, its
+   value and its scaled coordinate *)
+Lemma parity_preserving_resize_keeps_coordinates {B} (zero : B) (arr : arr2d B) H W r0 r1 mpv (g : rgeom) :
+  rectb H W (fst arr) = true -> rectb H W (snd arr) = true -> 0 < H -> 0 <= r0 -> 0 <= r1 ->
+  Z.even (r0 - H) = true -> Z.even (r1 - W) = true ->
+  exists out, array_resized_from zero arr (r0, r1) mpv = Ok out /\
+    rectb r0 r1 (fst out) = true /\ rectb r0 r1 (snd out) = true /\
+    forall i j, 0 <= i < r0 -> 0 <= j < r1 ->
+      let y := i + (H / 2 - r0 / 2) in let x := j + (W / 2 - r1 / 2) in
+      0 <= y < H -> 0 <= x < W ->
+      zget2 true (snd out) i j = zget2 true (snd arr) y x /\
+      zget2 zero (fst out) i j = zget2 zero (fst (normal_arr zero arr)) y x /\
+      @pixel_centre_code ROps r0 r1 g i j = @pixel_centre_code ROps H W g y x.
+Proof.
+  intros HA HM HP Hr0 Hr1 E0 E1. pose proof (properA_entries zero H W arr (conj HA (conj HM HP))) as HE.
+  destruct (array_resized_entries zero arr H W _ _ r0 r1 mpv HE HP Hr0 Hr1) as (out & EQ & [OA OM]).
+  exists out. split; [exact EQ|].
+  split; [destruct OA as (_ & _ & RA & _); now apply Rect_rectb|]. split; [destruct OM as (_ & _ & RM & _); now apply Rect_rectb|].
+  intros i j Hi Hj y x Hy Hx.
+  destruct OA as (_ & _ & _ & GA). destruct OM as (_ & _ & _ & GM).
+  destruct (normal_arr_entries zero arr H W _ _ HE) as [(_ & _ & _ & GN) _].
+  rewrite (GA i j zero Hi Hj), (GM i j true Hi Hj), (GN y x zero Hy Hx).
+  assert (IR : inr y H && inr x W = true).
+  { unfold inr. rewrite !andb_true_iff. repeat split; try (apply Z.leb_le; lia); apply Z.ltb_lt; lia. }
+  unfold masked_fun, resized_fun. fold y x. rewrite IR. repeat split. now apply centre_code_shift.
+Qed.
